@@ -2128,3 +2128,44 @@ package apd
 //@   props C04
 //@   exported
 //@   requires inv(d)
+// ---------------------------------------------------------------- byte-level conversions: no panic, well-formed results (the bytes themselves are C13)
+//@ func math/big.(*Int).FillBytes
+//@   trusted math/big (panics when the magnitude does not fit in buf)
+//@   requires bitlen(abs(val(x))) <= 8 * len(buf)
+//@ func math/big.(*Int).Bytes
+//@   trusted math/big
+//@   pure
+//@   allocates
+//@ func math/big.(*Int).SetBytes
+//@   trusted math/big (the bytes are a big-endian unsigned magnitude)
+//@   assigns *z
+//@   ensures val(z) >= 0 && ret == z && !negzero(z)
+//@ func (*BigInt).FillBytes
+//@   layer bigint
+//@   props C16 C04
+//@   requires rep(z) && bitlen(abs(val(z))) <= 8 * len(buf)
+//@ func (*BigInt).Bytes
+//@   layer bigint
+//@   props C16 C04
+//@   requires rep(z)
+//@   pure
+//@   allocates
+//@ func (*BigInt).SetBytes
+//@   layer bigint
+//@   props C16 C04 C06
+//@   requires writable(z) && rep(z)
+//@   assigns z
+//@   outs z
+//@   allocates
+//@   ensures val(z) >= 0 && ret == z && rep(z)
+//@ func (*Decimal).Decompose
+//@   props C04
+//@   exported
+//@   requires inv(d)
+//@ func (*Decimal).Compose
+//@   props C04 C06
+//@   exported
+//@   requires writable(d)
+//@   assigns d
+//@   outs d when ret == nil
+//@   ensures [wf] ret == nil ==> inv(d)
